@@ -413,6 +413,8 @@ func phases(thorough bool) []phase {
 	return ps
 }
 
+const c06Keys = `^(term|entries|entries-error|firstindex|lastindex|snapshot|initialstate|save-error|create-snapshot-error|create-snapshot-value|nil|panic)$`
+
 func main() {
 	thorough := os.Getenv("VERIF_TIER") == "thorough"
 	tbudget := 110 * time.Second
@@ -420,6 +422,9 @@ func main() {
 		tbudget = 25 * time.Minute
 	}
 	if len(os.Args) > 2 && os.Args[1] == "--replay" {
+		if ev.PartOf(os.Args[2]) == "C06" {
+			ev.ReplayPart("C05", os.Getenv("VERIF_BIN_C06"), c06Keys, os.Args[2], "VERIF_PART_PHASES=^single-group$")
+		}
 		var f struct {
 			Replay struct {
 				Nodes int     `json:"nodes"`
@@ -438,7 +443,7 @@ func main() {
 		fmt.Println(w.Canon())
 		w.Close()
 		if k != "" {
-			fmt.Printf("VIOLATION property=C05 replay=%s\n  %s: %s\n", os.Args[2], k, d)
+			fmt.Printf("VIOLATION property=%s replay=%s\n  %s: %s\n", ev.As("C05"), os.Args[2], k, d)
 			os.Exit(1)
 		}
 		fmt.Println("replay: property held")
@@ -584,6 +589,9 @@ func main() {
 		"restart = the same constructor call the production callers make (peer list passed again); election timeout is exactly 10 ticks (etcd's randomisation pinned)",
 		"the convergence probe (heal, restart all, deliver all, 12 rounds) runs from every 4th explored history and is a bounded liveness check",
 	}
+	// "after a restart it resumes from a term and log no older than what it had made durable": what the replica reads
+	// back is the log store's answer - C06's single-group phase counts here for every answer raft would get wrong
+	run.RunPart("log-store-C06", os.Getenv("VERIF_BIN_C06"), c06Keys, "VERIF_PART_PHASES=^single-group$")
 	run.Finish(ev.Coverage{
 		"states":                        total.States,
 		"transitions":                   total.Transitions,
